@@ -266,7 +266,9 @@ type gatherWorld struct {
 	turns    []*fakeTurn
 	udpMux   *UDPMuxDefault
 	tcpMux   *TCPMuxDefault
+	srflxMux *UniversalUDPMuxDefault
 	muxSock  *gSock
+	ufrags   []string // local ufrag of every generation seen so far (index = generation)
 	lis      *fakeLis
 	gathers  int
 	closed   bool
@@ -402,6 +404,16 @@ func newGatherWorld(raw json.RawMessage) *gatherWorld {
 		gw.udpMux = NewUDPMuxDefault(UDPMuxParams{UDPConn: c, Logger: nopLogger{}, Net: gw.fn})
 		opts = append(opts, WithUDPMux(gw.udpMux))
 	}
+	if cfg.UDPMuxSrflx != "" {
+		a, _ := net.ResolveUDPAddr("udp", cfg.UDPMuxSrflx)
+		c, err := gw.fn.ListenUDP("udp", a)
+		if err != nil {
+			panic(err)
+		}
+		c.(*gSock).res.kind = "muxsocket" //nolint:forcetypeassert
+		gw.srflxMux = NewUniversalUDPMuxDefault(UniversalUDPMuxParams{UDPConn: c, Logger: nopLogger{}, Net: gw.fn})
+		opts = append(opts, WithUDPMuxSrflx(gw.srflxMux))
+	}
 	if cfg.TCPMux != "" {
 		a, _ := net.ResolveTCPAddr("tcp", cfg.TCPMux)
 		gw.lis = &fakeLis{ch: make(chan net.Conn), closed: make(chan struct{}), addr: a}
@@ -413,6 +425,7 @@ func newGatherWorld(raw json.RawMessage) *gatherWorld {
 		panic(fmt.Sprintf("agent construction failed: %v (config %s)", err, raw))
 	}
 	gw.a = a
+	gw.noteUfrag()
 	a.turnClientFactory = func(c *turn.ClientConfig) (turnClient, error) {
 		gw.fn.mu.Lock()
 		defer gw.fn.mu.Unlock()
@@ -502,12 +515,23 @@ func (gw *gatherWorld) answerSTUN(d dgram) {
 
 // openResources lists resources that are open now (closed zero times), optionally of one generation.
 func (gw *gatherWorld) openResources(gen int) []string {
+	var out []string
+	refs := gw.muxRefs()
+	var keys []string
+	for k := range refs {
+		keys = append(keys, k)
+	}
+	sort.Strings(keys)
 	gw.fn.mu.Lock()
 	defer gw.fn.mu.Unlock()
-	var out []string
 	for _, r := range gw.fn.resources {
 		if r.closes == 0 && r.kind != "muxsocket" && (gen < 0 || r.gen == gen) {
 			out = append(out, fmt.Sprintf("%s#%d(%s, generation %d)", r.kind, r.id, r.tag, r.gen))
+		}
+	}
+	for _, k := range keys {
+		if g := refs[k]; g != -2 && (gen < 0 || g == gen) {
+			out = append(out, fmt.Sprintf("%s still registered in the mux (generation %d)", k, g))
 		}
 	}
 
@@ -532,7 +556,78 @@ func (gw *gatherWorld) Close() {
 	if gw.tcpMux != nil {
 		_ = gw.tcpMux.Close()
 	}
+	if gw.srflxMux != nil {
+		_ = gw.srflxMux.Close()
+	}
 	quiesce()
+}
+
+// noteUfrag records the local ufrag of the current generation (mux registrations are keyed by it).
+func (gw *gatherWorld) noteUfrag() {
+	gw.fn.mu.Lock()
+	gen := gw.fn.gen
+	gw.fn.mu.Unlock()
+	for len(gw.ufrags) <= gen {
+		gw.ufrags = append(gw.ufrags, "")
+	}
+	if gw.ufrags[gen] == "" {
+		gw.ufrags[gen] = gw.a.localUfrag
+	}
+}
+
+// muxRefs lists the connections still registered in the muxes the agent borrows from, as "kind(key)" -> generation.
+func (gw *gatherWorld) muxRefs() map[string]int {
+	gw.noteUfrag()
+	out := map[string]int{}
+	genOf := func(key string) int {
+		for g := len(gw.ufrags) - 1; g >= 0; g-- {
+			if gw.ufrags[g] != "" && strings.HasPrefix(key, gw.ufrags[g]) {
+				return g
+			}
+		}
+
+		return -2 // not a key of this agent
+	}
+	name := func(key string) string { // the ufrag is random: name the registration by its generation
+		if g := genOf(key); g >= 0 {
+			return fmt.Sprintf("<ufrag of generation %d>%s", g, strings.TrimPrefix(key, gw.ufrags[g]))
+		}
+
+		return key
+	}
+	udp := func(kind string, m *UDPMuxDefault) {
+		if m == nil {
+			return
+		}
+		m.mu.Lock()
+		defer m.mu.Unlock()
+		for u, c := range m.connsIPv4 {
+			if !c.isClosed() {
+				out[kind+"4("+name(u)+")"] = genOf(u)
+			}
+		}
+		for u, c := range m.connsIPv6 {
+			if !c.isClosed() {
+				out[kind+"6("+name(u)+")"] = genOf(u)
+			}
+		}
+	}
+	udp("udpmuxconn", gw.udpMux)
+	if gw.srflxMux != nil {
+		udp("srflxmuxconn", gw.srflxMux.UDPMuxDefault)
+	}
+	if m := gw.tcpMux; m != nil {
+		m.mu.Lock()
+		for u := range m.connsIPv4 {
+			out["tcpmuxconn4("+name(u)+")"] = genOf(u)
+		}
+		for u := range m.connsIPv6 {
+			out["tcpmuxconn6("+name(u)+")"] = genOf(u)
+		}
+		m.mu.Unlock()
+	}
+
+	return out
 }
 
 func (gw *gatherWorld) localCands() []Candidate {
